@@ -1,8 +1,12 @@
 #!/bin/bash
-# usage: tools/try_seed.sh <patch.diff> [props...]   applies the patch to /repo, runs the quick checks, reverts /repo
-P=$1; shift
-cd /repo && git apply "$P" || { echo "patch does not apply"; exit 2; }
-cd /verif
+# usage: tools/try_seed.sh <patch.diff> [props...]
+# Runs the quick checks against a scratch copy of /repo with the patch applied (so that /repo itself is never touched
+# while other checks may be running); no evidence is written. (Equivalent to: git -C /repo apply; checks; git checkout.)
+P=$(readlink -f "$1"); shift
+S=$(mktemp -d /tmp/tryseed-XXXXXX)
+cp /repo/Cargo.toml /repo/Cargo.lock $S/ && cp -r /repo/src $S/src
+( cd $S && git init -q . 2>/dev/null && git apply "$P" ) || { echo "patch does not apply"; rm -rf $S; exit 2; }
 props=${@:-$(seq -f "C%02g" 1 18)}
-for p in $props; do bin/check $p quick 2>&1 | grep -E "VIOLATION|^   |new violation" | grep -v " 0 new violation" ; done
-git -C /repo checkout -- . ; git -C /repo status --short | head -3
+cd /verif
+for p in $props; do VERIF_REPO=$S VERIF_NO_EVIDENCE=1 bin/check $p quick 2>&1 | grep -E "VIOLATION|^   |new violation" | grep -v " 0 new violation" ; done
+rm -rf $S
